@@ -23,7 +23,9 @@ package scen
 //   closer-not-nearest     the list is not the nearest-first prefix (length min(K, candidates)) of the node's
 //                          routing table without itself and the requester  [see note below]
 //   peer-record-size       a peer record above 8 KiB serialized
-//   response-too-large     a FIND_NODE / GET_PROVIDERS response above network.MessageSizeMax
+//   response-too-large     a FIND_NODE / GET_PROVIDERS response above network.MessageSizeMax (judged on the
+//                          bytes read back: whatever the records say, connection types included; the
+//                          inputs that make it tight are in c09_targets.go and c09_fill.go)
 //   echo-peer-records      a PING / PUT_VALUE echo carries peer records
 //   ap-foreign-provider / ap-bad-key-stored / ap-unacceptable-stored / ap-unaccounted-entry
 //                          provider store content not explained by the prefill plus acceptable ADD_PROVIDERs
@@ -447,6 +449,9 @@ func (w *c09World) checkResponse(st *c09Stream, r *c09Req, resp *pb.Message, bod
 			if len(resp.GetProviderPeers()) < w.nBig && bodyLen > network.MessageSizeMax-2*c09MaxPeerRecord {
 				s.Count("probe_budget_truncated")
 			}
+			if w.variant == c09Fill {
+				w.fillProbes(resp, bodyLen)
+			}
 		}
 	case pb.Message_GET_VALUE:
 		if resp.GetRecord() != nil {
@@ -552,6 +557,16 @@ func (w *c09World) checkCloser(st *c09Stream, r *c09Req, resp *pb.Message, bodyL
 		same = true
 		cands = cands[:len(got)]
 		s.Count("probe_closer_cut_by_transport_limit")
+		nConn := 0
+		for _, rec := range resp.GetCloserPeers() {
+			if rec.GetConnection() != 0 {
+				nConn++
+			}
+		}
+		if nConn >= 10 {
+			// more than the requesters of a run: members the scenario connected
+			s.Count("probe_cut_list_many_connected")
+		}
 		if isFN && targetListed && len(got) < len(ids) {
 			// the requested peer's record came on top of a list that had to be cut:
 			// the transport limit (rule response-too-large) covers both together
